@@ -19,6 +19,7 @@ import (
 	"strconv"
 	"strings"
 	"sync"
+	"time"
 )
 
 // A data socket is used to send non-control data between the client and
@@ -100,6 +101,7 @@ type ftpPassiveSocket struct {
 	wg        sync.WaitGroup
 	err       error
 	tlsConfig *tls.Config
+	listener  net.Listener
 }
 
 func newPassiveSocket(host string, port int, sessionid string, tlsConfig *tls.Config) (DataSocket, error) {
@@ -140,6 +142,10 @@ func (socket *ftpPassiveSocket) Write(p []byte) (n int, err error) {
 }
 
 func (socket *ftpPassiveSocket) Close() error {
+	if socket.listener != nil {
+		// the listening socket was only ever released by process exit
+		socket.listener.Close()
+	}
 	if socket.conn != nil {
 		return socket.conn.Close()
 	}
@@ -154,11 +160,16 @@ func (socket *ftpPassiveSocket) GoListenAndServe(sessionid string) (err error) {
 	}
 
 	var listener net.Listener
-	listener, err = net.ListenTCP("tcp", laddr)
+	tcpListener, err := net.ListenTCP("tcp", laddr)
 	if err != nil {
 		log.Debug(sessionid, err.Error())
 		return
 	}
+
+	// wait for the data connection no longer than an idle control connection
+	// is kept; a command waiting for it would otherwise block forever
+	tcpListener.SetDeadline(time.Now().Add(30 * time.Second))
+	listener = tcpListener
 
 	add := listener.Addr()
 	parts := strings.Split(add.String(), ":")
@@ -175,8 +186,12 @@ func (socket *ftpPassiveSocket) GoListenAndServe(sessionid string) (err error) {
 		listener = tls.NewListener(listener, socket.tlsConfig)
 	}
 
+	socket.listener = listener
+
 	go func() {
 		conn, err := listener.Accept()
+		// one data connection per passive socket
+		listener.Close()
 		socket.wg.Done()
 		if err != nil {
 			socket.err = err
